@@ -18,7 +18,7 @@ theorem polars_never (c : Cache) (node : Ast) (h : c.backend = .polars) :
 
 /-- the state right after a `SubqueryMarker`: a fresh SELECT over a materialised source -/
 structure MarkerState (c : Cache) : Prop where
-  limit0 : c.limit = 0
+  limit0 : c.limit = none
   noGroup : c.groupBy = []
   notFiltered : c.isFiltered = false
   ewise : ∀ e ∈ c.cols, e.2.ftype = .elementWise ∧ e.2.dtype.isConst = false
